@@ -309,6 +309,16 @@ def run(ctx, model_available=True):
                         except Exception:  # noqa: BLE001
                             pass
                 eout = load_dir(loop, epath)
+                # model (SaveCrash.io_fault_category): is the error reported, what does the file load to
+                kind = efs.trace[-1].split(":")[0] if efs.trace and efs.trace[-1].endswith(":EIO") else None
+                if kind in ("open", "write", "close") and all(t == "write" for t in trace[1:-1]) and len(trace) == 3:
+                    try:
+                        with open(epath, "rb") as f:
+                            on_disk = len(f.read())
+                    except FileNotFoundError:
+                        on_disk = 0
+                    d.add(f"IOF {('open', 'write', 'close').index(kind)} {on_disk} {len(new_text)}")
+                    exp.append((("iof", oi, ni, kind, torn, 0 if eres == "done" else 1), eout, old_show, new_show))
                 if eres == "done" and eout != new_show:
                     failures.append({"kind": "oracle", "sig": "C15:save-reported-success",
                                      "desc": f"file operation {k} ({efs.trace[-1] if efs.trace else '?'}) of the save failed with OSError; save() returned normally, yet the file loads to {eout[:80]!r} instead of the registry that was saved",
@@ -389,6 +399,14 @@ def run(ctx, model_available=True):
     if model_available and exp:
         outs = d.run()
         for (case, outcome, old_show, new_show), mout in zip(exp, outs):
+            if isinstance(case, tuple) and case and case[0] == "iof":
+                rep, cat = (int(x) for x in mout.split())
+                want = {0: old_show, 1: new_show, 2: "OK", 3: "ERR"}.get(cat, "?")
+                if rep != case[5] or want != outcome:
+                    failures.append({"kind": "corr", "sig": None,
+                                     "desc": f"I/O error at the {case[3]} of a save (pair {case[1]}->{case[2]}, torn {case[4]}): implementation {'reported' if case[5] else 'did not report'} it and the file loads {outcome[:60]!r}; the model: {'reported' if rep else 'not reported'}, {want[:60]!r}",
+                                     "case": list(case)})
+                continue
             want = {0: old_show, 1: new_show, 2: "OK", 3: "ERR"}.get(int(mout), "?")
             if want != outcome:
                 failures.append({"kind": "corr", "sig": None,
